@@ -125,9 +125,15 @@ static void body(const Case &c, Result &r) {
     mtbl_compression_type t = (mtbl_compression_type)99;
     mtbl_res res = mtbl_compression_type_from_str(n.c_str(), &t);
     int want = -1;
-    for (int i = 0; i < 6; i++)
+    bool exact = false;
+    for (int i = 0; i < 6; i++) {
       if (strcasecmp(n.c_str(), NAMES[i]) == 0) want = i;
-    if (want >= 0) {
+      if (strcmp(n.c_str(), NAMES[i]) == 0) exact = true;
+    }
+    if (want >= 0 && !exact && res != mtbl_res_success) {
+      // a differently-cased spelling: the statement only promises that the canonical names round-trip, so refusing it is fine
+      r.tag("case_variant_refused");
+    } else if (want >= 0) {
       if (res != mtbl_res_success || (int)t != want) r.failf("mtbl_compression_type_from_str(\"%s\") = %d/%d, expected success/%d", n.c_str(), (int)res, (int)t, want);
       else {
         const char *back = mtbl_compression_type_to_str(t);
